@@ -50,7 +50,7 @@ def run(report: Report, tier, seed):
             only_stack = all(m["kind"] == "stack" for m in r["mismatches"])
             opt_on_only = all(e2e.optimizer_on(m["options"], s["version"]) for m in r["mismatches"])
             rec = {"input": {"spec": s}, "mismatches": r["mismatches"][:3], "program": r.get("program"), "teal": r["teals"]}
-            if only_stack and opt_on_only and r.get("known_multistore"):
+            if opt_on_only and r.get("known_multistore"):      # exact attribution: vanishes when the multiply-stored slots are withheld (e2e.repaired_optimizer)
                 known.append(rec)
             else:
                 fails.append(rec)
